@@ -236,7 +236,9 @@ def run(prog, rep, tier):
                                             if y[0] == "call" and y[2].split("::")[-1] in DECL:
                                                 declared.append(y[2].split("::")[-1] + "() via min")
                             continue
-                        if nm_ in DECL or nm_ in ("filesz", "filesz_actual", "size"):
+                        # `size()` of a record *layout* (FixedStructType::size, a constant per type) is not a size the file declares
+                        layout_const = nm_ == "size" and "FixedStructType" in x[2]
+                        if (nm_ in DECL or nm_ in ("filesz", "filesz_actual", "size")) and not layout_const:
                             declared.append(nm_ + "()")
                     elif x[0] in ("arg", "local"):
                         fl_ = [q for q in x[-1] if isinstance(q, str) and q not in ("*", "&")]
